@@ -288,6 +288,8 @@ def classify_persist(k, ty, v1, cli_val, cli_set, stored_before, lib_default, de
 
 def run(ctx):
     R = Runner(ctx)
+    for pr in R.T.get("problems", []):
+        ctx.disagree("translator", {"problem": pr}, "the tables the model was written for", pr)
     rng = ctx.rng
     CONF, DEFAULTS = R.CONF, R.DEFAULTS
     spec_queue = []
@@ -596,6 +598,9 @@ def run(ctx):
                 tags[k] = classify_persist(k, CONF[k], merged[k], ns.get(k), ns.get(k) is not None,
                                            sect_of(before_user, server).get(k), lib.get(k, DEFAULTS[k]),
                                            dict(sect_of(user, "DEFAULT")).get("clientuid"))
+            for k, tag in list(tags.items()):
+                if tag == "persist_cli_equals_default" and k in sect_of(user, "DEFAULT") and k not in sect_of(user, server):
+                    tags[k] = tag = "persist_cli_default_vs_default_section"
             for k, tag in tags.items():
                 if k in OH_KEYS and "ofxhome" in tags and ns.get(k) is None:
                     tag = tags["ofxhome"]     # a consequence of the OFX Home id not persisting
@@ -636,6 +641,13 @@ def run(ctx):
         R.flush()
     ctx.exhaustive.append(f"persistence: every CONFIGURABLE option x value pool x stored-state ({n_d1} write+rerun pairs)")
 
+    # D1b: --clientuid equal to the global (DEFAULT-section) CLIENTUID while the server section stores another one
+    for stored in ("S-OTHER", None):
+        user0 = [["DEFAULT", [["clientuid", "G-UID"]]], ["srv1", ([["clientuid", stored]] if stored else []) + [["user", "bob"]]]]
+        sequence([write_ns(clientuid="G-UID")], [], user0, {}, "d1b clientuid-global")
+        sequence([write_ns(clientuid="NEW-UID")], [], user0, {}, "d1b clientuid-new")
+    R.flush()
+
     # D2: random sequences of length <= 4
     for i in range(ctx.budget(250)):
         server = rng.choice(servers[:3]) if rng.random() < 0.9 else rng.choice(servers)
@@ -658,9 +670,8 @@ def run(ctx):
 
     # ------------------------------------------------------------------ E. leaf functions
     leaf = []
-    for s in STR_SPECIAL + ["%%%", "%%(a)s", "%(a)s%(b)s", "%(a)", "%(a)x", "%()s", "%(a)s%", "a%(b)sc%%d", "%(A)s"]:
-        leaf.append(("validset", s))
-        leaf.append(("interp", s))
+    for s in STR_SPECIAL + ["%%%", "%%(a)s", "%(a)s%(b)s", "%(a)", "%()s", "a%(b)sc%%d"]:
+        leaf.append(("verbatim", s))
     for s in ["1", " 1 ", "+1", "-0", "1_0", "1__0", "_1", "1_", "", "007", "-", "+", "12a", "yes", "ON", "maybe", " true",
               "False", "0", "off", "nO"]:
         leaf.append(("conv-int", s))
@@ -672,8 +683,7 @@ def run(ctx):
     for _ in range(ctx.budget(300)):
         l = ["".join(rng.choice("ab1 ,'\"[]\\%") for _ in range(rng.randrange(0, 5))) for _ in range(rng.randrange(0, 4))]
         leaf.append(("ser-list", l))
-        leaf.append(("validset", "".join(rng.choice("a%()s") for _ in range(rng.randrange(0, 9)))))
-        leaf.append(("interp", "".join(rng.choice("ab%()s") for _ in range(rng.randrange(0, 9)))))
+        leaf.append(("verbatim", "".join(rng.choice("a%()s") for _ in range(rng.randrange(0, 9)))))
     for s in servers + ["a:b", ":x", "1a:b", "a+b.c-d:e", "a_b:c", "http//x", " http://x", "é:x", "", "x:"]:
         leaf.append(("scheme", s))
     SECT = {"a": "A", "b": "x%(a)sy", "c": "%(c)s", "d": "50%%", "e": "%(nosuch)s", "url": "U"}
@@ -690,21 +700,20 @@ def run(ctx):
         cpi._sections = raw._sections
         return cpi
     for op, x in leaf:
-        if op == "validset":
-            lines.append(line("ofxget.validset", x))
-            cp = og.UserConfig()
-            cp["s"] = {}
-
-            def f(x=x, cp=cp):
-                cp["s"]["k"] = x
-                return True
-            r = run_impl_all(f)
-            impls.append(["ok", r[0] == "ok" or x == ""])
-        elif op == "interp":
-            lines.append(line("ofxget.interp", [[k, v] for k, v in SECT.items()], x))
-            cpi = raw_parser(dict(SECT, k=x))
-            r = run_impl_all(lambda cpi=cpi: cpi.get("s", "k"))
-            impls.append(["ok", ["s", r[1]]] if r[0] == "ok" else ["err", r[1]])
+        if op == "verbatim":
+            # interpolation=None: what is stored is what is read, for both parsers
+            for cls in (og.UserConfig, og.LibraryConfig):
+                cp = cls()
+                cp["s"] = {}
+                r = run_impl_all(lambda cp=cp, x=x: (cp["s"].__setitem__("k", x), cp["s"].get("k"))[1])
+                ctx.evaluations += 1
+                if r != ("ok", x):
+                    ctx.violate("persist_percent_in_value", {"op": "set-get", "value": x, "parser": cls.__name__},
+                                f"{cls.__name__}: cfg['s']['k'] = {x!r} then get -> {r} (values must be stored and read verbatim)",
+                                {"phase": "leaf"})
+            lines.append(line("ofxget.scheme", x))
+            import urllib.parse as _up
+            impls.append(["ok", bool(_up.urlparse(x).scheme)] if "[" not in x and "]" not in x else None)
         elif op.startswith("conv-"):
             ty = op[5:]
             lines.append(line("ofxget.conv", Atom(ty), x))
@@ -720,11 +729,13 @@ def run(ctx):
             lines.append(line("ofxget.scheme", x))
             impls.append(["ok", bool(urllib.parse.urlparse(x).scheme)])
     for (op, x), impl, rep in zip(leaf, impls, ctx.model.ask(lines)):
+        if impl is None:
+            continue
         if rep.kind == "ok":
             v = rep.vals[0]
-            if op in ("validset", "scheme"):
+            if op in ("verbatim", "scheme"):
                 model = ["ok", v == "T"]
-            elif op in ("interp", "ser-list"):
+            elif op in ("ser-list",):
                 model = ["ok", ["s", dstr(v)]]
             else:
                 model = ["ok", dv(v)]
